@@ -43,6 +43,7 @@ SYMBOLS = {
     "T": (36.0, 47.0, 0.0, 10.0),  # tropical night: minimum temperature above every crop's upper temperature
     "K": (3.0, 24.0, 0.0, 4.0),  # cool night below most base temperatures, warm day (the degree-day methods differ here)
     "F": (-12.0, -2.0, 0.0, 0.5),  # frost: maximum temperature below every crop's base temperature
+    "Q": (2.0, 17.0, 0.0, 2.0),    # chilly: a few tenths to 2 degree days for most crops (between 0 and a raised GDD_lo)
 }
 WORDS = {
     "normal": "NNNRNNN",
@@ -52,7 +53,7 @@ WORDS = {
     "warm": "WWWWWR",
     "showers": "NRNMNRN",
     "hot": "WWHWWDR",
-    "coolnights": "WKWWKRWKH", "scorch": "TTTWTTR",
+    "coolnights": "WKWWKRWKH", "scorch": "TTTWTTR", "chilly": "NQNNQQNRQ",
 }
 
 
